@@ -29,6 +29,14 @@ type Step struct {
 	Queries   []string // `Q …` lines: canonicalised answers of the query server on the post-state
 }
 
+// traceSigner: the legacy proposal route signs with the module's authority (keeper/proposal.go)
+func traceSigner(s string) string {
+	if s == "legacy" {
+		return "auth"
+	}
+	return s
+}
+
 func classifyErr(err error) string {
 	if err == nil {
 		return "ok"
@@ -323,6 +331,14 @@ func (e *Env) Exec(line string) []Step {
 		rng := types.RewardWeightRange{Min: mn, Max: mx}
 		res, _, evs := e.runTx(func(ctx sdk.Context) error {
 			var err error
+			if f[1] == "legacy" {
+				// the legacy governance route: x/gov v1beta1 content → proposal handler → keeper wrappers (keeper/proposal.go)
+				h := alliance.NewAllianceProposalHandler(e.App.AllianceKeeper)
+				if f[0] == "create" {
+					return h(ctx, &types.MsgCreateAllianceProposal{Title: "t", Description: "d", Denom: dn, RewardWeight: w, TakeRate: tr, RewardChangeRate: cr, RewardChangeInterval: ci, RewardWeightRange: rng})
+				}
+				return h(ctx, &types.MsgUpdateAllianceProposal{Title: "t", Description: "d", Denom: dn, RewardWeight: w, TakeRate: tr, RewardChangeRate: cr, RewardChangeInterval: ci, RewardWeightRange: rng})
+			}
 			if f[0] == "create" {
 				_, err = e.Msg.CreateAlliance(ctx, &types.MsgCreateAlliance{Authority: e.signer(f[1]), Denom: dn, RewardWeight: w, TakeRate: tr, RewardChangeRate: cr, RewardChangeInterval: ci, RewardWeightRange: rng})
 			} else {
@@ -330,14 +346,17 @@ func (e *Env) Exec(line string) []Step {
 			}
 			return err
 		})
-		return finish(fmt.Sprintf("%s %s %s %s %s %s %s %s %s %d", f[0], f[1], dtok, f[3], decRaw(w), decRaw(mn), decRaw(mx), decRaw(tr), decRaw(cr), int64(ci)), res, evs)
+		return finish(fmt.Sprintf("%s %s %s %s %s %s %s %s %s %d", f[0], traceSigner(f[1]), dtok, f[3], decRaw(w), decRaw(mn), decRaw(mx), decRaw(tr), decRaw(cr), int64(ci)), res, evs)
 	case "delete":
 		dn, dtok := denomArg(f[2])
 		res, _, evs := e.runTx(func(ctx sdk.Context) error {
+			if f[1] == "legacy" {
+				return alliance.NewAllianceProposalHandler(e.App.AllianceKeeper)(ctx, &types.MsgDeleteAllianceProposal{Title: "t", Description: "d", Denom: dn})
+			}
 			_, err := e.Msg.DeleteAlliance(ctx, &types.MsgDeleteAlliance{Authority: e.signer(f[1]), Denom: dn})
 			return err
 		})
-		return finish(fmt.Sprintf("delete %s %s", f[1], dtok), res, evs)
+		return finish(fmt.Sprintf("delete %s %s", traceSigner(f[1]), dtok), res, evs)
 	case "params":
 		// <signer> <delay ns> <interval ns> <last: keep | ns-offset-from-now>
 		p := k.GetParams(e.Ctx)
